@@ -24,7 +24,9 @@ CLAIM = dict(
           "positions x capacities x call histories."),
     note=("Layer B engines as the engine of Layer A (LouProofs/ModelEngine.lean): the F0 main-pass model (translate_contract) and the multipass stage "
           "model (fwdStage_contract) satisfy EngineOK for every table, so model_driver_fwd_safe states driver safety with NO hypothesis on the engines "
-          "for the modelled fragments. "
+          "for the modelled fragments; with the main pass extended by context rules (FwdCOK.translateC_contract, engineFor_ok) the same holds for "
+          "every call the whole-call model covers (whole_call_fwd_safe), and that model's complete result is compared with the implementation "
+          "on composite generated tables under exact-size buffers (MCALL). "
           "The driver's index expressions (LouModel/Access.lean) are transcribed by hand. The engines' own accesses "
           "(rule selection, emphasis resolver, compbrl, swap/group, repword, match, pass interpreters) are NOT proved; "
           "they are observed under the sanitizers only. Use-after-free across arena relocation is a sanitizer matter."),
